@@ -99,11 +99,12 @@ CLAIMED = {
               "body's list for each of the 30 types."),
         design_ref="DESIGN.md §4 C13"),
     "C16": dict(
-        technique="source-level symbolic execution of parse_block4_fields / normalize_field_tag on structured block-4 texts with symbolic field contents and of FieldConsumptionTracker on a symbolic set of marks (z3) + Kani/CBMC on the tag normalisation / base-tag helpers (all short strings)",
+        technique="source-level symbolic execution of parse_block4_fields / normalize_field_tag on structured block-4 texts with symbolic field contents of FieldConsumptionTracker on a symbolic set of marks, and of split_into_sequences / parse_repetitive_sequence on a symbolic tag sequence (z3) + Kani/CBMC on the tag normalisation / base-tag helpers (all short strings)",
         text=("Five block-4 templates with symbolic contents: every field appears exactly once under its tag with its content and the "
               "stamps increase; the tracker, after any subset of three occurrences was marked in any order, hands out the first unmarked "
-              "occurrence; normalize_field_tag and extract_base_tag decided for all inputs up to 4-5 bytes against the documented rule. "
-              "The constrained sequential lookups and sequence splitting are outside the claim."),
+              "occurrence; split_into_sequences (5 configurations) and parse_repetitive_sequence (3 markers) put every one of N = 8 (thorough 12) "
+              "occurrences with symbolic tags into exactly one sequence / item; normalize_field_tag and extract_base_tag decided for all inputs up to 4-5 bytes against the documented rule. "
+              "The constrained sequential lookups are outside the claim."),
         design_ref="DESIGN.md §4 C16"),
     "C17": dict(
         technique="source-level symbolic execution of the classification predicates and the plugin's method selection on symbolic field-72 lines (z3 strings) and finite MUR/119 candidate sets; replayed natively",
